@@ -8,7 +8,10 @@ from lib.common import model_run_parallel, src_hashes
 PID = "C05"
 RULE = ("correspondence: extracted Coq model (level-map machine + rubric branch + nested_render_text) vs the doctree built by the "
         "docutils front end, on every level sequence 1..6 up to length 6 (thorough; <= 4 quick), random longer sequences "
-        "interleaved with paragraphs, headings inside block quotes / list items / {note} bodies / a match_titles directive, "
+        "interleaved with paragraphs, headings inside block quotes / list items / every registered docutils directive that nested-parses "
+        "Markdown content (probed from the directive registry: admonitions, topic, sidebar, container, compound, epigraph, figure legend, "
+        "list-table / csv-table cells, header/footer, class ...) / ordered list items / definition-list dd / field-list bodies / footnote "
+        "definitions / colon-fence divs and directives / a match_titles directive, in every surrounding context and in pairs, "
         "{include} files with :heading-offset: (scratch files); relation = tree of (section|rubric, level, marker) + multiset of "
         "[myst.header] warnings; search: parent of every section computed independently (closest preceding still-open heading of "
         "lower level), rubric levels, warning count; non-trivial = a document with a level skip, a level decrease or a nested heading")
@@ -29,6 +32,18 @@ def gen(ctx):
 
 # ------------------------------------------------------------------ documents
 # block ::= ["H", tag] | ["P"] | ["Q", blocks] | ["L", blocks] | ["N", blocks] | ["T", blocks] | ["I", offset, blocks]
+#         | ["D", name, blocks]   any registered docutils directive that nested-parses Markdown content (probed, see container_kinds)
+#         | ["X", kind, blocks]   other container tokens: ol (ordered list item), dd (definition), field (field body),
+#                                 fn (footnote definition), div (colon fence :::name), colon (:::{note})
+
+def children_of(b):
+    k = b[0]
+    if k in ("Q", "L", "N", "T"):
+        return b[1]
+    if k in ("I", "D", "X"):
+        return b[2]
+    return None
+
 
 def fence_height(blocks):
     h = 0
@@ -39,7 +54,16 @@ def fence_height(blocks):
             h = max(h, fence_height(b[1]))
         elif b[0] == "I":
             h = max(h, 1)
+        elif b[0] == "D" or (b[0] == "X" and b[1] in ("div", "colon")):
+            h = max(h, 1 + fence_height(b[2]))
+        elif b[0] == "X":
+            h = max(h, fence_height(b[2]))
     return h
+
+
+def indent(body, first, rest):
+    ls = body.split("\n")
+    return "\n".join([first + ls[0]] + [(rest + l if l else "") for l in ls[1:]])
 
 
 class Renderer:
@@ -74,6 +98,35 @@ class Renderer:
             fence = "`" * (3 + fence_height(b[1]))
             name = "note" if k == "N" else "verif-titled"
             return fence + "{" + name + "}\n" + self.blocks(b[1] or [["P"]]) + "\n" + fence
+        if k == "D":
+            name = b[1]
+            fence = "`" * (3 + fence_height(b[2]))
+            body = self.blocks(b[2] or [["P"]])
+            arg = DIRECTIVE_ARG.get(name, "")
+            if name == "figure":
+                body = "cap\n\n" + body
+            elif name == "list-table":
+                body = indent(body, "* - ", "    ") + "\n  - b"
+            elif name == "csv-table":
+                body = '"' + body + '"'
+            return fence + "{" + name + "}" + (" " + arg if arg else "") + "\n" + body + "\n" + fence
+        if k == "X":
+            kind = b[1]
+            body = self.blocks(b[2] or [["P"]])
+            if kind == "ol":
+                return indent(body, "1. ", "   ")
+            if kind == "dd":
+                return "term\n" + indent(body, ": ", "  ")
+            if kind == "field":
+                # a leading paragraph: at the start of a directive body ":name:" would be read as the option block
+                return "para\n\n:name:\n" + indent(body, "    ", "    ")
+            if kind == "fn":
+                self.nfn = getattr(self, "nfn", 0) + 1
+                # the body goes on continuation lines (indent 4); on the label line its column would be 7
+                return "[^f%d]: para\n\n" % self.nfn + indent(body, "    ", "    ")
+            colons = ":" * (3 + fence_height(b[2]))
+            head = "name" if kind == "div" else "{note}"
+            return colons + head + "\n" + body + "\n" + colons
         if k == "I":
             name = "inc%d.md" % self.ninc
             self.ninc += 1
@@ -107,7 +160,79 @@ def enc_tree(bs):
             out.append("D1( " + enc_tree(b[1] or [["P"]]) + " )")
         elif k == "I":
             out.append("I%d( " % b[1] + enc_tree(b[2]) + " )")
+        elif k == "D" or (k == "X" and b[1] == "colon"):
+            # a directive body is rendered by nested_render_text with heading offset 0, the node appended afterwards
+            out.append("D0( " + enc_tree(b[2] or [["P"]]) + " )")
+        elif k == "X" and b[1] == "div":
+            # render_colon_fence: current_node_context(container, append=True) around nested_render_text(content) (offset 0)
+            out.append("C( I0( " + enc_tree(b[2] or [["P"]]) + " ) )")
+        elif k == "X":
+            out.append("C( C( " + enc_tree(b[2] or [["P"]]) + " ) )")
     return " ".join(out)
+
+
+# ------------------------------------------------------------------ which containers exist
+
+DIRECTIVE_ARG = {}
+_KINDS = None
+X_KINDS = ["ol", "dd", "field", "fn", "div", "colon"]
+
+
+def container_kinds(notes=None):
+    """Every registered docutils directive with content, and the MyST container tokens, that accept a heading in
+    their body on this implementation: probed with a small document; kept when rendering reports no ERROR and the
+    heading is found in the doctree (as rubric *or* section - the property decides which it must be)."""
+    global _KINDS
+    if _KINDS is not None:
+        return _KINDS
+    from docutils.parsers.rst import directives
+    from docutils.parsers.rst.languages import en
+    from docutils.utils import new_document
+    from docutils.frontend import get_default_settings
+    from myst_parser.parsers.docutils_ import Parser
+    from lib.impl import scratch_dir
+    register_titled()
+    doc0 = new_document("probe", get_default_settings(Parser))
+    cands = []
+    for name in sorted(set(directives._directive_registry) | set(directives._directives)):
+        if name in ("note", "verif-titled", "include"):
+            continue
+        try:
+            cls, _ = directives.directive(name, en, doc0)
+        except Exception:
+            cls = None
+        if cls is None or not getattr(cls, "has_content", False):
+            continue
+        if getattr(cls, "required_arguments", 0):
+            DIRECTIVE_ARG[name] = "x.png" if name in ("figure", "image") else "Title"
+        cands.append(["D", name])
+    cands += [["X", k] for k in X_KINDS]
+    kept, dropped = [], []
+    with scratch_dir() as d:
+        for c in cands:
+            doc = [["H", 1], c + [[["H", 2], ["P"]]], ["H", 2]]
+            try:
+                tree, warns, other = run_impl(doc, d)
+            except Exception as e:
+                dropped.append("%s:%s" % (c[1], type(e).__name__))
+                continue
+            found = "h1" in _markers(tree)
+            if other or not found:
+                dropped.append(c[1])
+            else:
+                kept.append(c)
+    _KINDS = (kept, dropped)
+    return _KINDS
+
+
+def _markers(tree):
+    out = set()
+    for x in tree:
+        out.add(x[1])
+        if x[0] == "S":
+            out |= _markers(x[2])
+    return out
+
 
 
 # ------------------------------------------------------------------ driving the implementation
@@ -158,6 +283,7 @@ def run_impl(doc, d):
     st.warning_stream = ws
     st.report_level = 1
     st.halt_level = 5
+    st.myst_enable_extensions = ["deflist", "fieldlist", "colon_fence"]
     document = new_document(os.path.join(d, "main.md"), st)
     Parser().parse(main, document)
     warns = [w["msg"] for w in parse_warnings(ws.getvalue()) if w["tag"] == "myst.header"]
@@ -232,26 +358,73 @@ def warn_pairs(msgs):
 
 # ------------------------------------------------------------------ generators
 
-def rand_blocks(rng, depth, allow_titled, top=True):
+FRAGILE = ("csv-table", "list-table")   # body must stay simple (one table cell): headings and paragraphs only
+
+
+def rand_blocks(rng, depth, allow_titled, top=True, in_sidebar=False):
+    kinds = container_kinds()[0]
     n = rng.randint(1, 5 if top else 3)
     out = []
+
+    def sub(**kw):
+        return rand_blocks(rng, depth - 1, allow_titled, False, kw.get("in_sidebar", in_sidebar))
+
+    def push(b):
+        if out and out[-1][0] in ("L", "X") and b[0] in ("L", "X"):
+            out.append(["P"])  # adjacent lists (of the same kind) would merge into one list node
+        out.append(b)
     for _ in range(n):
         k = rng.random()
-        if k < 0.5 or depth <= 0:
+        if k < 0.45 or depth <= 0:
             out.append(["H", rng.randint(1, 6)] if rng.random() < 0.8 else ["P"])
-        elif k < 0.62:
-            out.append(["Q", rand_blocks(rng, depth - 1, allow_titled, False)])
-        elif k < 0.74:
-            if out and out[-1][0] == "L":
-                out.append(["P"])  # two adjacent lists would merge into one bullet_list
-            out.append(["L", rand_blocks(rng, depth - 1, allow_titled, False)])
-        elif k < 0.84:
-            out.append(["N", rand_blocks(rng, depth - 1, allow_titled, False)])
-        elif k < 0.88 and allow_titled:
-            out.append(["T", rand_blocks(rng, depth - 1, allow_titled, False)])
+        elif k < 0.53:
+            out.append(["Q", sub()])
+        elif k < 0.61:
+            push(["L", sub()])
+        elif k < 0.67:
+            out.append(["N", sub()])
+        elif k < 0.71 and allow_titled:
+            out.append(["T", sub()])
+        elif k < 0.88 and kinds:
+            c = rng.choice(kinds)
+            if (c[1] in LOOSE and not top) or (c[1] == "sidebar" and in_sidebar):
+                c = ["D", "topic"] if ["D", "topic"] in kinds else ["X", "ol"]
+            if c[1] in FRAGILE:
+                push(c + [[["H", rng.randint(1, 6)] if rng.random() < 0.7 else ["P"] for _ in range(rng.randint(1, 3))]])
+            elif c[1] in LOOSE:
+                push(c + [rand_blocks(rng, depth - 1, False, False, in_sidebar)])
+            else:
+                push(c + [sub(in_sidebar=in_sidebar or c[1] == "sidebar")])
         else:
-            out.append(["I", rng.choice([0, 0, 1, 1, 2, 3]), rand_blocks(rng, depth - 1, allow_titled, False)])
+            out.append(["I", rng.choice([0, 0, 1, 1, 2, 3]), sub()])
     return out
+
+
+# header / footer content goes to document.decoration (front of the document): position is not compared
+LOOSE = ("header", "footer")
+
+
+def systematic(ctx):
+    """every container kind in every surrounding context, and kind-in-kind combinations"""
+    kinds = container_kinds()[0]
+    wraps = [lambda b: [b], lambda b: [["Q", [b]]], lambda b: [["L", [["P"], b]]], lambda b: [["I", 2, [b]]],
+             lambda b: [["N", [b]]]]
+    for c in kinds:
+        for wi, w in enumerate(wraps):
+            if c[1] in LOOSE and wi:
+                continue
+            for tag in (1, 2, 6):
+                yield [["H", 1], ["H", 2]] + w(c + [[["H", tag], ["P"]]]) + [["P"], ["H", 3]]
+        yield [c + [[["H", 3]]], ["H", 1], c + [[["P"], ["H", 1], ["H", 5]]], ["H", 2]]
+    inner = [c for c in kinds if c[1] not in LOOSE]
+    pairs = [(a, b) for a in kinds for b in inner]
+    if ctx.tier != "thorough" and not ctx.deep:
+        import random
+        pairs = random.Random("pairs-%s" % ctx.seed).sample(pairs, min(len(pairs), 250))
+    for a, b in pairs:
+        if a[1] in FRAGILE or (a[1] == "sidebar" and b[1] == "sidebar"):
+            continue
+        yield [["H", 2], a + [[["H", 1], b + [[["H", 4], ["P"]]], ["H", 2]]], ["H", 3]]
 
 
 def case_stream(ctx, salt, allow_titled=True):
@@ -265,9 +438,10 @@ def case_stream(ctx, salt, allow_titled=True):
     yield [["H", 1], ["I", 2, [["N", [["H", 2]]], ["Q", [["H", 2]]]]], ["H", 2]]
     if allow_titled:
         yield [["H", 1], ["H", 2], ["Q", [["P"], ["T", [["H", 2], ["P"]]]]], ["P"], ["H", 3]]
+    yield from systematic(ctx)
     import random
     rng = random.Random("%s-%s-%s" % (ctx.seed, salt, ctx.tier))
-    for _ in range(ctx.budget(4000, 15000, 30000)):
+    for _ in range(ctx.budget(3000, 15000, 30000)):
         r = rng.random()
         if r < 0.35:
             # long level sequences interleaved with paragraphs
@@ -288,6 +462,8 @@ def nontriv(doc):
             if b[0] == "H" and inside:
                 return True
             if b[0] in ("Q", "L", "N", "T") and has_nested(b[1], True):
+                return True
+            if b[0] in ("D", "X") and has_nested(b[2], True):
                 return True
             if b[0] == "I" and has_nested(b[2], inside):
                 return True
@@ -328,6 +504,11 @@ def pmap_chunks(fn, items, jobs=12, chunk=200):
 def corr(ctx):
     if not ctx.have_runner:
         return
+    kept, dropped = container_kinds()
+    ctx.notes.append("container kinds exercised: " + ", ".join(c[1] for c in kept)
+                     + "; registered directives with content that reject a heading body / are not nested-parsed: " + ", ".join(dropped))
+    if len(kept) < 20:
+        raise RuntimeError("container probing found only %d kinds: %r" % (len(kept), kept))
     docs = list(case_stream(ctx, "corr"))
     lines = ["render\t" + enc_tree(doc) for doc in docs]
     mouts = model_run_parallel(PID, lines)
@@ -336,10 +517,14 @@ def corr(ctx):
     for doc, mo, (itree, iw, other) in zip(docs, mouts, impl):
         ctx.corr_cases += 1
         mtree, mw = canon_model(mo)
+        if is_loose(doc) and not isinstance(itree, str) and not isinstance(mtree, str):
+            itree, mtree = loosen(itree), loosen(mtree)
         kinds = set(_kinds(doc))
         ctx.count("doc:" + ("headings-only" if kinds <= {"H"} else "flat" if kinds <= {"H", "P"} else "nested"))
         for k in kinds - {"H", "P"}:
             ctx.count("with:" + k)
+        if any(":" in k for k in kinds):
+            ctx.count("doc:with-directive-or-token-container")
         if nontriv(doc):
             ctx.nontriv(repr(doc))
         bad = None
@@ -368,11 +553,30 @@ def corr(ctx):
 
 def _kinds(bs):
     for b in bs:
-        yield b[0]
-        if b[0] in ("Q", "L", "N", "T"):
-            yield from _kinds(b[1])
-        elif b[0] == "I":
-            yield from _kinds(b[2])
+        yield b[0] if b[0] not in ("D", "X") else b[0] + ":" + b[1]
+        ch = children_of(b)
+        if ch is not None:
+            yield from _kinds(ch)
+
+
+def is_loose(doc):
+    return any(k in ("D:header", "D:footer") for k in _kinds(doc))
+
+
+def loosen(tree):
+    """section tree without rubrics + sorted rubrics (for documents with header/footer content)"""
+    rub = []
+
+    def strip(t):
+        out = []
+        for x in t:
+            if x[0] == "S":
+                out.append(["S", x[1], strip(x[2])])
+            else:
+                rub.append(x)
+        return out
+    st = strip(tree)
+    return [st, sorted(rub)]
 
 
 # ------------------------------------------------------------------ direct property oracle
@@ -390,10 +594,8 @@ def expected_structure(doc):
             if b[0] == "H":
                 ignored.add(counter[0])
                 counter[0] += 1
-            elif b[0] in ("Q", "L", "N", "T"):
-                skip(b[1])
-            elif b[0] == "I":
-                skip(b[2])
+            elif children_of(b) is not None:
+                skip(children_of(b))
 
     def walk(bs, off, inside):
         for b in bs:
@@ -411,6 +613,10 @@ def expected_structure(doc):
                 walk(b[1], 0, True)        # a directive body is rendered with heading offset 0
             elif k == "I":
                 walk(b[2], b[1], inside)   # an include is rendered in place with its own offset
+            elif k == "D" or (k == "X" and b[1] in ("div", "colon")):
+                walk(b[2], 0, True)        # any directive body / colon-fence div: heading offset 0
+            elif k == "X":
+                walk(b[2], off, True)
             elif k == "T":
                 skip(b[1])
     walk(doc, 0, False)
@@ -487,7 +693,7 @@ def check_doc(ctx, case, d):
             diff = {i: (exp_parent[i], obs_parent.get(i)) for i in exp_parent if exp_parent[i] != obs_parent.get(i)}
             fail("sections:wrong-parent", "section parents differ from 'closest preceding still-open heading of lower level': "
                  "{heading: (expected, observed)} = %r" % diff, exp_parent, obs_parent)
-        if order != sorted(order):
+        if order != sorted(order) and not is_loose(doc):
             fail("sections:order", "sections/rubrics are not in source order", sorted(order), order)
         if rubrics != nested:
             fail("sections:rubric-level", "rubrics {heading: level} differ from the nested headings", nested, rubrics)
@@ -523,6 +729,7 @@ def search(ctx):
             if c and "doc" in c:
                 ctx.search_cases += 1
                 check_doc(ctx, c, d)
+    container_kinds()
     docs = list(case_stream(ctx, "search"))
     ctx.search_cases += len(docs)
     for part in pmap_chunks(_check_chunk, docs):
